@@ -277,3 +277,65 @@ func tailF(a []float64, n int) []float64 {
 }
 
 func TestC08(t *testing.T) { runProperty(t, "C08", genC08, runC08) }
+
+// TestC08Timeout - the one fault of C08's quantifier that cannot fire in fake time: a command sensor
+// that hangs past its 2 s timeout. Real time, real monitor: the smoothed value must not move while
+// the command hangs, and polling must resume afterwards.
+func TestC08Timeout(t *testing.T) {
+	st := sim.NewStats("C08")
+	defer st.Flush()
+	dir, err := os.MkdirTemp(sim.WorkDir(), "c08t-")
+	if err != nil {
+		t.Fatal(err)
+	}
+	defer os.RemoveAll(dir)
+	for ci, window := range []int{1 + envInt("VERIF_SEED", 1)%3, 10} {
+		if ci > 0 && os.Getenv("VERIF_TIER") != "thorough" {
+			break
+		}
+		sim.BaseConfig()
+		configuration.CurrentConfig.TempRollingWindowSize = window
+		script := filepath.Join(dir, "sensor.sh")
+		os.WriteFile(filepath.Join(dir, "val"), []byte("50000\n"), 0644)
+		os.WriteFile(filepath.Join(dir, "hang"), []byte("0"), 0644)
+		os.WriteFile(script, []byte("#!/bin/sh\nif [ \"$(cat "+dir+"/hang)\" = 1 ]; then sleep 6; fi\ncat "+dir+"/val\n"), 0755)
+		configuration.CurrentConfig.Sensors = []configuration.SensorConfig{{ID: "hang", Cmd: &configuration.CmdSensorConfig{Exec: script}}}
+		os.Setenv("FAN2GO_VERIF_HWMON_ROOT", filepath.Join(dir, "none"))
+		freshPrometheus()
+		if _, err := internal.InitializeObjects(); err != nil {
+			t.Fatal(err)
+		}
+		s, _ := sensors.GetSensor("hang")
+		ctx, cancel := context.WithCancel(context.Background())
+		done := make(chan error, 1)
+		go func() { done <- internal.NewSensorMonitor(s, 100*time.Millisecond).Run(ctx) }()
+		time.Sleep(700 * time.Millisecond)
+		os.WriteFile(filepath.Join(dir, "hang"), []byte("1"), 0644)
+		time.Sleep(600 * time.Millisecond) // a poll already in flight finishes; every later one hangs
+		a1 := s.GetMovingAvg()
+		time.Sleep(3 * time.Second)
+		a2 := s.GetMovingAvg()
+		os.WriteFile(filepath.Join(dir, "val"), []byte("70000\n"), 0644)
+		os.WriteFile(filepath.Join(dir, "hang"), []byte("0"), 0644)
+		time.Sleep(3500 * time.Millisecond)
+		a3 := s.GetMovingAvg()
+		cancel()
+		select {
+		case <-done:
+		case <-time.After(5 * time.Second):
+		}
+		var vs []sim.Violation
+		if math.Float64bits(a1) != math.Float64bits(a2) {
+			vs = append(vs, sim.Violation{Key: "timed-out-read-changes-average", Msg: fmt.Sprintf("window %d: smoothed value moved %v -> %v while the sensor command was hanging", window, a1, a2)})
+		}
+		if !(a3 > a2) {
+			vs = append(vs, sim.Violation{Key: "monitor-stuck-after-timeout", Msg: fmt.Sprintf("window %d: smoothed value still %v 3.5 s after the command recovered (reading 70000)", window, a3)})
+		}
+		sc := map[string]any{"window": window, "beforeHang": a1, "afterHang": a2, "afterRecovery": a3}
+		st.CaseH(fmt.Sprintf("timeout-%d", window), sc, true, "kind:cmd", "fault:timeout")
+		if fail := st.Judge(vs); len(fail) > 0 {
+			st.SaveReplay("TestC08Timeout", sc, fail)
+			t.Fatalf("C08: %v", fail)
+		}
+	}
+}
